@@ -45,6 +45,7 @@ func main() {
 	timeout := flag.Int("timeout", 0, "per-query timeout in seconds (default 10 quick / 60 thorough)")
 	par := flag.Int("par", 8, "obligations solved in parallel")
 	verbose := flag.Bool("v", false, "print every obligation")
+	ovf := flag.Bool("ovf", true, "emit int64 overflow obligations for + - * on int")
 	flag.Parse()
 	start := time.Now()
 	eng, err := loadEngine(*repo, *specs)
@@ -52,6 +53,7 @@ func main() {
 		fmt.Fprintln(os.Stderr, "govc: engine error:", err)
 		os.Exit(2)
 	}
+	eng.ovf = *ovf
 	if err := eng.renderSpecs(false); err != nil {
 		fmt.Fprintln(os.Stderr, "govc: spec error:", err)
 		os.Exit(2)
